@@ -108,12 +108,23 @@ class Backend(object):
         """fresh library Pauli of an oracle element, built from arrays (not through the parser)."""
         return lib.P(bits(el[0]), el[1]) if self.pkg == 'py' else lib.tP(bits(el[0]), el[1])
 
-    def mklist(self, els, N):
+    def mklist(self, els, N, layout=None):
         gs = np.array([bits(l) for l, p in els], dtype=np.int64).reshape(-1, 2 * N)
         ps = np.array([p for l, p in els], dtype=np.int64)
         if self.pkg == 'py':
             return self.pa.PauliList(np.array(gs, dtype=lib.INT), np.array(ps, dtype=lib.INT))
+        if layout == 'float32':      # the layout of lists made by the library's own arithmetic (PauliList(gs, ps) with float phases)
+            return self.pa.PauliList(lib.tT(gs), lib.tT(ps))
         return self.pa.PauliList(lib.tT(gs), self.m['torch'].tensor(ps))
+
+    def layouts(self):
+        return ('int',) if self.pkg == 'py' else ('int64', 'float32')
+
+    def mk_layout(self, el, layout):
+        if self.pkg == 'py' or layout in ('int', 'int64'):
+            return self.mk(el)
+        t = self.m['torch']
+        return self.pa.Pauli(lib.tT(bits(el[0])), t.tensor(float(el[1]), dtype=t.float32))
 
     def tokrow(self, row):
         """a token row as the library hands it out -> list of ints."""
@@ -264,6 +275,8 @@ def fn_single(items):
             for name, d, kw in ds:
                 ctx.pauli_is('parse/%s/p=%d' % (name, p), 'pauli(%r%s)' % (d, ', N=%d' % N if kw else ''),
                              (lambda d=d, kw=kw: pauli(d, **kw)), el)
+                if not kw and N >= 1:      # the qubit number may also be stated for descriptions that do not need it
+                    ctx.pauli_is('parse+N/%s/p=%d' % (name, p), 'pauli(%r, N=%d)' % (d, N), (lambda d=d: pauli(d, N=N)), el)
             P0 = B.mk(el)
             # a Pauli object is passed through unchanged
             ctx.count(False)
@@ -310,6 +323,12 @@ def fn_single(items):
             ctx.pauli_is('neg/Pauli', '-(%s)' % text(el), (lambda: -B.mk(el)), (letters, (p + 2) % 4))
             for nm, c, dp in SCALARS:
                 ctx.pauli_is('scalar/%s/Pauli' % nm, '%s * (%s)' % (nm, text(el)), (lambda c=c: c * B.mk(el)), (letters, (p + dp) % 4))
+            for lay in B.layouts():
+                Q = B.mk_layout(el, lay)
+                ctx.pauli_is('neg/Pauli/operand-reused', '-Q, Q = %s (%s phase)' % (text(el), lay), (lambda: -Q), (letters, (p + 2) % 4))
+                for nm, c, dp in SCALARS[:4]:
+                    ctx.pauli_is('scalar/%s/Pauli/operand-reused' % nm, '%s * Q, Q = %s (%s phase) used before' % (nm, text(el), lay), (lambda c=c: c * Q), (letters, (p + dp) % 4))
+                ctx.pauli_is('scalar/Pauli/operand-modified', 'Q = %s (%s phase) after -Q and c*Q' % (text(el), lay), (lambda: Q), el)
             # double application (history): -(-x), i*(i*x)
             ctx.pauli_is('neg/Pauli', '-(-(%s))' % text(el), (lambda: -(-B.mk(el))), el)
             ctx.pauli_is('scalar/1j/Pauli', '1j*(1j*(%s))' % text(el), (lambda: 1j * (1j * B.mk(el))), (letters, (p + 2) % 4))
@@ -387,6 +406,8 @@ def containers(els, N, B, pkg):
     if all(p == 0 for l, p in els):
         out.append(('varargs-dict/N', (lambda: paulis(*[{i: l[i] for i in range(N) if l[i] != 'I'} for l, p in els], N=N)), False))
         out.append(('list-dict/N', (lambda: paulis([{i: CODE[l[i]] for i in range(N) if l[i] != 'I'} for l, p in els], N=N)), False))
+    out.append(('varargs-str/N', (lambda: paulis(*strs, N=N)), False))
+    out.append(('mixed-dict-str/N', (lambda: paulis([({i: l[i] for i in range(N) if l[i] != 'I'} if (p == 0 and k % 2 == 0) else strs[k]) for k, (l, p) in enumerate(els)], N=N)), False))
     if pkg == 'torch':
         t = B.m['torch']
         out.append(('tensor-codes', (lambda: paulis(t.tensor(rows))), False))
@@ -468,6 +489,16 @@ def fn_lists(items):
                 for nm, c, dp in SCALARS:
                     ctx.list_is('scalar/%s/PauliList' % nm, '%s * %s' % (nm, what), (lambda c=c: c * B.mklist(els, N)),
                                 [(l, (p + dp) % 4) for l, p in els], N)
+                # ---- the same on ONE operand object per phase layout (and on a slice view of it): the operand stays what it was
+                for lay in B.layouts():
+                    Y = B.mklist(els, N, lay)
+                    Z = Y[0:]
+                    ctx.list_is('neg/PauliList/operand-reused', '-Y, Y = %s (%s phases)' % (what, lay), (lambda: -Y), [(l, (p + 2) % 4) for l, p in els], N)
+                    for nm, c, dp in SCALARS[:4]:
+                        ctx.list_is('scalar/%s/PauliList/operand-reused' % nm, '%s * Y, Y = %s (%s phases) used before' % (nm, what, lay), (lambda c=c: c * Y),
+                                    [(l, (p + dp) % 4) for l, p in els], N)
+                    ctx.list_is('neg/PauliList/operand-reused', '-(Y[0:]), Y = %s (%s phases)' % (what, lay), (lambda: -Z), [(l, (p + 2) % 4) for l, p in els], N)
+                    ctx.list_is('scalar/PauliList/operand-modified', 'Y = %s (%s phases) after -Y, c*Y, -(Y[0:])' % (what, lay), (lambda: Y), els, N)
             # ---- every index expression against Python list semantics
             for kind, label, ix, exp in menu:
                 sig = 'getitem/%s' % kind
